@@ -51,6 +51,8 @@ def run(chk):
     r5_inputs_untouched(chk, repo)
     from .c18 import r7_stale_locals
     r7_stale_locals(chk, repo, "C17.R6", [GENERAL])
+    from ..rules import dropped_parameters
+    dropped_parameters(chk, repo, "C17.R7", [GENERAL])
 
 
 def _sorted_check_try(node, pname):
@@ -360,6 +362,8 @@ def r5_inputs_untouched(chk, repo):
 
 
 WITNESSES = [
+    W("split_touching_windows ignores its window", "C17.R7", GENERAL,
+      "windows = touching_windows(things, containers, window)", "windows = touching_windows(things, containers)"),
     W("sort_by_time shifts the caller's channel numbers", "C17.R5", GENERAL,
       "channel = x[\"channel\"].copy()", "channel = x[\"channel\"]"),
     W("gap of exactly safe_break is not a break", "C17.R4", GENERAL,
